@@ -2,6 +2,7 @@ import PV.Model.Eval
 import PV.Model.Ops
 import PV.Model.Traverse
 import PV.Driver.GAOps
+import PV.Driver.LexOps
 import PV.Driver.EvalTableOps
 import PV.Driver.SubstOps
 import PV.Driver.C13GroupOps
@@ -218,6 +219,7 @@ def handlers : List (Sexp → Option Sexp) :=
    , handleC13Groups
    , handleSubst
    , handleEvalTable
+   , handleLex
    -- HANDLERS
   ]
 
